@@ -82,15 +82,18 @@ class RecSink : public log::Sink {
 struct SinkCfg {
     int kind;                        // 0 rec, 1 file, 2 async stdout, 3 sync stdout
     int def_level;
-    std::map<int, int> mod_level;    // module index -> level
+    std::map<int, int> mod_level;    // module index -> level (configuration of burst 0)
+    std::vector<int> def_level_b;                   // per burst: default threshold in force
+    std::vector<std::map<int, int>> mod_level_b;    // per burst: per-module thresholds in force
     std::vector<bool> enabled;       // per burst
 };
 
 bool passes(const SinkCfg &s, const Call &c) {
-    auto it = s.mod_level.find(c.mod);
+    const std::map<int, int> &ml = s.mod_level_b[c.burst];
+    auto it = ml.find(c.mod);
     int lv = std::max(0, std::min(LOG_LEVEL_MAX - 1, c.level));
-    if (it != s.mod_level.end()) return lv <= it->second;
-    return lv <= s.def_level;
+    if (it != ml.end()) return lv <= it->second;
+    return lv <= s.def_level_b[c.burst];
 }
 
 struct Barrier {
@@ -233,6 +236,22 @@ void one_case(uint64_t idx, vh::Rng &r) {
         for (int i = 0; i < nm; ++i) s.mod_level[(int)r.below(4)] = (int)r.range(-1, LOG_LEVEL_MAX);
         s.enabled.resize(nbursts);
         for (int b = 0; b < nbursts; ++b) s.enabled[b] = r.chance(4, 5);
+        // thresholds may be changed again between bursts: set again on the same module (up or down), unset, or a new default
+        s.def_level_b.assign(nbursts, s.def_level);
+        s.mod_level_b.assign(nbursts, s.mod_level);
+        for (int b = 1; b < nbursts; ++b) {
+            s.def_level_b[b] = s.def_level_b[b - 1];
+            s.mod_level_b[b] = s.mod_level_b[b - 1];
+            int nchg = (int)r.below(3);
+            for (int i = 0; i < nchg; ++i) {
+                int m = (int)r.below(4);
+                switch (r.below(4)) {
+                    case 0: s.def_level_b[b] = r.pick(lv); break;
+                    case 1: s.mod_level_b[b].erase(m); break;
+                    default: s.mod_level_b[b][m] = (int)r.range(-1, LOG_LEVEL_MAX); break;
+                }
+            }
+        }
         sig.add(s.kind); sig.add(s.def_level); sig.add(s.mod_level.size());
     }
     // calls
@@ -340,6 +359,16 @@ void one_case(uint64_t idx, vh::Rng &r) {
     uint64_t transitions = 0;
     for (int b = 0; b < nbursts; ++b) {
         LogSetMaxLength(burst_max[b]);
+        if (b > 0) for (size_t i = 0; i < sinks.size(); ++i) {     // re-level at the quiescent point
+            const SinkCfg &sc = sinks[i];
+            if (sc.def_level_b[b] != sc.def_level_b[b - 1]) { objs[i]->setLevel(sc.def_level_b[b]); vh::counter("relevel_default"); }
+            for (int m = 0; m < 4; ++m) {
+                auto pit = sc.mod_level_b[b - 1].find(m), nit = sc.mod_level_b[b].find(m);
+                bool had = pit != sc.mod_level_b[b - 1].end(), has = nit != sc.mod_level_b[b].end();
+                if (has && (!had || pit->second != nit->second)) { objs[i]->setLevel(kModules[m], nit->second); vh::counter(had ? "relevel_module_set_again" : "relevel_module_set_new"); }
+                else if (had && !has) { objs[i]->unsetLevel(kModules[m]); vh::counter("relevel_module_unset"); }
+            }
+        }
         for (size_t i = 0; i < sinks.size(); ++i) {
             if (sinks[i].enabled[b] && !is_on[i]) { objs[i]->enable(); is_on[i] = true; ++transitions; }
             if (!sinks[i].enabled[b] && is_on[i]) { objs[i]->disable(); is_on[i] = false; ++transitions; }
